@@ -468,17 +468,71 @@ func opNames(ops []int) []string {
 	return n
 }
 
+// c11QuickSend: the Msg that QuickSend builds, delivers and returns is rendered again through every path; what the
+// server committed is the first rendering.
+func c11QuickSend(r *vf.Run) {
+	for _, content := range [][]byte{[]byte("quick body line one\r\nline two = with equals\r\n"), []byte("x"), bytes.Repeat([]byte("a long quick body line that is wrapped somewhere. "), 40)} {
+		sess := &refsmtp.Session{Host: "127.0.0.1", Caps: []string{"8BITMIME"}}
+		conn := refsmtp.NewConn(sess)
+		b, err := hx.ServeTCP(conn)
+		if err != nil {
+			r.HarnessError("C11 listen: %v", err)
+			return
+		}
+		var m *mail.Msg
+		var qerr error
+		pan, pw := vf.Guard(func() {
+			m, qerr = mail.QuickSend(fmt.Sprintf("127.0.0.1:%d", b.Port), nil, "sender@snd.example", []string{"rcpt@rcp.example"}, "quick", content)
+		})
+		b.Stop()
+		r.Eval(vf.Hash("quicksend", string(content)), true)
+		r.TraceValidated()
+		kase := c11Case{Cfg: c11Cfg{Shape: -1}}
+		if pan {
+			r.Violation("panic/"+vf.PanicSite(pw), firstLine(pw), kase, nil)
+			continue
+		}
+		if qerr != nil || m == nil || len(sess.Commits) != 1 {
+			r.HarnessError("C11 QuickSend against the plain loopback server failed: %v (%d commits)", qerr, len(sess.Commits))
+			return
+		}
+		first := bytes.TrimSuffix(sess.Commits[0].Data, []byte("\r\n"))
+		outs := map[string][]byte{}
+		var b1, b2, b3 bytes.Buffer
+		_, _ = m.WriteTo(&b1)
+		outs["WriteTo"] = b1.Bytes()
+		_, _ = m.WriteTo(&b2)
+		outs["second WriteTo"] = b2.Bytes()
+		_, _ = io.Copy(&b3, m.NewReader())
+		outs["NewReader"] = b3.Bytes()
+		ok := true
+		for name, o := range outs {
+			if !bytes.Equal(bytes.TrimSuffix(o, []byte("\r\n")), first) {
+				ok = false
+				r.Violation("render-differs/quicksend-message/"+strings.ReplaceAll(name, " ", "-"), fmt.Sprintf("the Msg returned by QuickSend renders through %s as %d bytes, the server had received %d bytes: %q… vs %q…", name, len(o), len(first), clipb(o[minInt(len(o), 300):], 60), clipb(first[minInt(len(first), 300):], 60)), kase, nil)
+			}
+		}
+		if ok {
+			r.Outcome("reached/quicksend-message-rendered-again")
+		}
+	}
+}
+
 func init() {
 	vf.Register(&vf.Check{
 		ID: "C11", Title: "rendering is repeatable and all output paths agree",
 		Run: func(r *vf.Run) {
-			r.SetRule("message shapes {single (also with a transfer encoding outside go-mail's constants), PGP/MIME encrypted and signed (caller-supplied parts), alternative, body+attachment, body+embed, attachment-only, two attachments only, three preformatted headers next to a dozen generic headers (custom X- fields, importance, bulk, organisation), S/MIME single, S/MIME+attachment, nested multiparts with a caller-fixed boundary (plain and S/MIME)} × file source {io.Reader (buffer, *bytes.Reader partially consumed, *strings.Reader, *os.File), read-seeker (fresh and partially consumed), file, fs.FS, text template} × file encoding {base64, 8bit, QP} × ALL sequences of length 2..L (at length 4 without the two thin wrappers Write / WriteToTempFile) over the 9 render operations {WriteTo, Write, NewReader, UpdateReader, WriteToFile, WriteToTempFile, Send (server commit log), WriteTo into a sink failing at 0, … failing mid-way, WriteTo / NewReader / UpdateReader / Send while the content source (body or file writer function) fails, a Reader of which only 64 bytes are read, a Reader copied into a failing destination} × map-iteration start 0..7 per operation (<=1 operation deviating from start 0; thorough <=2) through the runtime seam; Date, Message-ID and boundaries are generated by go-mail on first use; plus a failure-offset sweep per configuration: [WriteTo, WriteTo into a sink that starts failing at byte K, WriteTo, WriteTo] for EVERY K of the output × {short write, rejected write}; every successful output must equal the first; distinct by (configuration, operation sequence, map starts)")
+			r.SetRule("message shapes {single (also with a transfer encoding outside go-mail's constants), PGP/MIME encrypted and signed (caller-supplied parts), alternative, body+attachment, body+embed, attachment-only, two attachments only, three preformatted headers next to a dozen generic headers (custom X- fields, importance, bulk, organisation), S/MIME single, S/MIME+attachment, nested multiparts with a caller-fixed boundary (plain and S/MIME)} × file source {io.Reader (buffer, *bytes.Reader partially consumed, *strings.Reader, *os.File), read-seeker (fresh and partially consumed), file, fs.FS, text template} × file encoding {base64, 8bit, QP} × ALL sequences of length 2..L (at length 4 without the two thin wrappers Write / WriteToTempFile) over the 9 render operations {WriteTo, Write, NewReader, UpdateReader, WriteToFile, WriteToTempFile, Send (server commit log), WriteTo into a sink failing at 0, … failing mid-way, WriteTo / NewReader / UpdateReader / Send while the content source (body or file writer function) fails, a Reader of which only 64 bytes are read, a Reader copied into a failing destination} × map-iteration start 0..7 per operation (<=1 operation deviating from start 0; thorough <=2) through the runtime seam; Date, Message-ID and boundaries are generated by go-mail on first use; plus a failure-offset sweep per configuration: [WriteTo, WriteTo into a sink that starts failing at byte K, WriteTo, WriteTo] for EVERY K of the output × {short write, rejected write}; every successful output must equal the first; plus the Msg that QuickSend builds, delivers and returns, rendered again through WriteTo (twice) and NewReader against what the server received; distinct by (configuration, operation sequence, map starts)")
 			r.Assume("map iteration order is owned through a runtime build-overlay seam (start offset 0..7 for maps of <= 8 entries)", "for S/MIME the per-render outer boundary and signature value are excluded: the signed entity and the remaining top-level fields are compared",
 				"Send output compares modulo the transport's final CRLF", "8bit file content with bare LF/CR compares modulo line-break canonicalisation across the Send path (the dot-writer canonicalises it; such content is illegal on the wire)")
 			if !mapseam.Enabled {
 				r.Incomplete("runtime map-iteration seam not available with this toolchain: map order is sampled, not enumerated")
 			}
+			if !r.IsShardChild() {
+				c11QuickSend(r)
+			}
 			if r.Fork(r.Workers) {
+				r.Reached("reached/quicksend-message-rendered-again")
 				for _, n := range c11Ops[:7] {
 					r.Reached("reached/compared/op=" + n)
 				}
@@ -684,6 +738,10 @@ func init() {
 			var k c11Case
 			if err := json.Unmarshal(kase, &k); err != nil {
 				r.HarnessError("bad case: %v", err)
+				return
+			}
+			if k.Cfg.Shape < 0 {
+				c11QuickSend(r)
 				return
 			}
 			dir := c11TmpDir()
